@@ -95,7 +95,7 @@ func init() {
 	core.Register(&core.Prop{
 		ID:    "C01",
 		Title: "Key-value containers behave as a map under every history",
-		Cases: func(tier string) int { return tierN(tier, 6000, 300000) },
+		Cases: func(tier string) int { return tierN(tier, 30000, 600000) },
 		Run:   runC01,
 		Rule: "one container per case (RedBlackTree, AVLTree, BTree of order 3..12,16,32,64, TreeMap, HashMap, LinkedHashMap, HashBidiMap, TreeBidiMap; natural, reversed or coarsened comparator; int or string keys) driven by one workload family: " +
 			"dense random Put/Remove/Get/Clear over a 4-12 key alphabet, build-then-drain in six order families, churn at a fixed size, sliding window, one-sided drain; ~70% of sizes <= 24, ~25% <= 300, ~5% up to 1500 (quick) / 5000 (thorough). " +
